@@ -96,7 +96,14 @@ __CPROVER_ensures(__CPROVER_return_value == SPEC_SX_ISDELIM(c))
  * Every constructor returns a fresh node; the ledger says how many blocks it
  * took.  Allocation failure is fatal in sx.c (sxoom) and not modelled. */
 
-#define SX_NODE_FRESH(p) __CPROVER_is_fresh((p), sizeof(struct sx_node))
+/* (the bounded fallback of the engine evaluates the clauses in plain cbmc,
+ * where is_fresh has no meaning: there "fresh" is read as "readable") */
+#ifdef VERIF_FALLBACK
+#define SX_FRESH(p, n) __CPROVER_r_ok((p), (n))
+#else
+#define SX_FRESH(p, n) __CPROVER_is_fresh((p), (n))
+#endif
+#define SX_NODE_FRESH(p) SX_FRESH((p), sizeof(struct sx_node))
 
 static struct sx_node *make_node(void)
 __CPROVER_assigns(g_sx_live)
@@ -125,7 +132,7 @@ __CPROVER_requires(__CPROVER_r_ok(s, len) && len < SIZE_MAX)
 __CPROVER_assigns(g_sx_live)
 __CPROVER_ensures(SX_NODE_FRESH(__CPROVER_return_value))
 __CPROVER_ensures(__CPROVER_return_value->type == SXT_SYMBOL)
-__CPROVER_ensures(__CPROVER_is_fresh(__CPROVER_return_value->data.symbol, len + 1))
+__CPROVER_ensures(SX_FRESH(__CPROVER_return_value->data.symbol, len + 1))
 __CPROVER_ensures(__CPROVER_return_value->data.symbol[len] == '\0')
 __CPROVER_ensures(IMPLIES(g_k < len, __CPROVER_return_value->data.symbol[g_k] == s[g_k]))
 __CPROVER_ensures(g_sx_live == __CPROVER_old(g_sx_live) + 2)
@@ -135,7 +142,7 @@ static struct sx_node *make_pair(void)
 __CPROVER_assigns(g_sx_live)
 __CPROVER_ensures(SX_NODE_FRESH(__CPROVER_return_value))
 __CPROVER_ensures(__CPROVER_return_value->type == SXT_PAIR)
-__CPROVER_ensures(__CPROVER_is_fresh(__CPROVER_return_value->data.pair, sizeof(struct sx_pair)))
+__CPROVER_ensures(SX_FRESH(__CPROVER_return_value->data.pair, sizeof(struct sx_pair)))
 __CPROVER_ensures(__CPROVER_return_value->data.pair->car == NULL && __CPROVER_return_value->data.pair->cdr == NULL)
 __CPROVER_ensures(g_sx_live == __CPROVER_old(g_sx_live) + 2)
 ;
@@ -144,7 +151,7 @@ struct sx_node *sx_cons(struct sx_node *car, struct sx_node *cdr)
 __CPROVER_assigns(g_sx_live)
 __CPROVER_ensures(SX_NODE_FRESH(__CPROVER_return_value))
 __CPROVER_ensures(__CPROVER_return_value->type == SXT_PAIR)
-__CPROVER_ensures(__CPROVER_is_fresh(__CPROVER_return_value->data.pair, sizeof(struct sx_pair)))
+__CPROVER_ensures(SX_FRESH(__CPROVER_return_value->data.pair, sizeof(struct sx_pair)))
 __CPROVER_ensures(__CPROVER_return_value->data.pair->car == car && __CPROVER_return_value->data.pair->cdr == cdr)
 __CPROVER_ensures(g_sx_live == __CPROVER_old(g_sx_live) + 2)
 ;
@@ -188,7 +195,7 @@ __CPROVER_ensures(IMPLIES(SX_RUNS_OK(s, n), *i == g_sxS[__CPROVER_old(*i)]))
 __CPROVER_ensures((__CPROVER_return_value == NULL) == (*i < n && !SPEC_SX_ISDELIM(s[*i])))
 __CPROVER_ensures(IMPLIES(__CPROVER_return_value != NULL,
     SX_NODE_FRESH(__CPROVER_return_value) && __CPROVER_return_value->type == SXT_SYMBOL
-    && __CPROVER_is_fresh(__CPROVER_return_value->data.symbol, *i - __CPROVER_old(*i) + 1)
+    && SX_FRESH(__CPROVER_return_value->data.symbol, *i - __CPROVER_old(*i) + 1)
     && __CPROVER_return_value->data.symbol[*i - __CPROVER_old(*i)] == '\0'
     && IMPLIES(g_k < *i - __CPROVER_old(*i),
                __CPROVER_return_value->data.symbol[g_k] == s[__CPROVER_old(*i) + g_k])))
@@ -456,7 +463,7 @@ __CPROVER_ensures(IMPLIES(i >= n, SX_RV.status == SXS_UNEXPECTED_END && SX_RV.no
 __CPROVER_ensures(IMPLIES(SX_RV.node == NULL, g_sx_live == __CPROVER_old(g_sx_live)))
 /* a successfully read non-empty list: fresh pair cell, fresh children */
 __CPROVER_ensures(IMPLIES(SX_IS_PAIR_RESULT(SX_RV),
-    __CPROVER_is_fresh(SX_RV.node->data.pair, sizeof(struct sx_pair))
+    SX_FRESH(SX_RV.node->data.pair, sizeof(struct sx_pair))
     && SX_NODE_FRESH(SX_RV.node->data.pair->car) && SX_NODE_FRESH(SX_RV.node->data.pair->cdr)))
 __CPROVER_ensures(IMPLIES(SX_GRAMMAR_OK(s, n), sx_tail_post_exact(s, n, i, SX_RV)))
 ;
